@@ -46,6 +46,15 @@ pub assume_specification<T>[ crossbeam_queue::ArrayQueue::<T>::pop ](q: &crossbe
 pub uninterp spec fn pooled_empty<T>(v: T) -> bool;
 pub broadcast axiom fn ax_pooled_empty(v: Vec<u8>)
     ensures #[trigger] pooled_empty::<Vec<u8>>(v) == (v@.len() == 0);
+/// permission: only an empty buffer may be put (back) into the pool (in the code as it is only the writer thread does that,
+/// unit `dispatch`; a handle that recycles a buffer itself must clear it first)
+pub uninterp spec fn pool_push_ok<T>(v: T) -> bool;
+pub broadcast axiom fn ax_pool_push_ok(v: Vec<u8>)
+    ensures #[trigger] pool_push_ok::<Vec<u8>>(v) == (v@.len() == 0);
+pub assume_specification<T>[ crossbeam_queue::ArrayQueue::<T>::push ](q: &crossbeam_queue::ArrayQueue<T>, v: T) -> (r: Result<(), T>)
+    requires
+        pool_push_ok::<T>(v), //@label ArrayQueue::push.perm C15,C20
+;
 pub assume_specification<T: Clone>[ <[T] as std::borrow::ToOwned>::to_owned ](s: &[T]) -> (r: Vec<T>)
     ensures r@.len() == s@.len(), to_owned_rel::<T>(s@, r@);
 pub uninterp spec fn to_owned_rel<T>(s: Seq<T>, r: Seq<T>) -> bool;
@@ -117,7 +126,7 @@ pub mod state_handle {
     use std::io::Write;
     use {crossbeam_channel::Sender, crossbeam_queue::ArrayQueue};
     type FormatFunction = VFormatFn;
-    broadcast use ax_send_msg_ok, ax_pooled_empty, ax_to_owned_u8, ax_extend_u8_slice;
+    broadcast use ax_send_msg_ok, ax_pooled_empty, ax_to_owned_u8, ax_extend_u8_slice, ax_pool_push_ok;
 
     //@ item src/writers/file_log_writer/state_handle.rs enum StateHandle
     //@   dropattr #[derive
